@@ -42,6 +42,8 @@ class Ctx:
         self.samples = []
         self.violations = []       # (clause, record)
         self.known_hits = {}       # finding id -> count
+        self.ood_reasons = {}
+        self.accept_notes = {}
         self.notes = {}
         self.rule = ""
         self.assumptions = []
@@ -128,6 +130,8 @@ class Ctx:
         self.evaluations += 1
         if verdict.startswith("ACCEPT"):
             self.accepted += 1
+            if verdict != "ACCEPT":
+                self.accept_notes[verdict] = self.accept_notes.get(verdict, 0) + 1
             nt = trace.get("meta", {}).get("nontrivial", True) if nontrivial is None else nontrivial(trace)
             if nt:
                 self.nontrivial.add(stable_hash(trace.get("input", trace)))
@@ -135,6 +139,7 @@ class Ctx:
                 self.samples.append(compact(trace, verdict))
         elif verdict.startswith("OOD"):
             self.ood += 1
+            self.ood_reasons[verdict] = self.ood_reasons.get(verdict, 0) + 1
         elif verdict.startswith("REJECT"):
             self.rejected += 1
             self.violation(verdict[len("REJECT"):].strip(), trace)
@@ -187,6 +192,8 @@ class Ctx:
             "samples": self.samples[:5] or [{"note": "model-checking runs only", "runs": self.tlc_runs[:3]}],
             "rejected": self.rejected,
             "out_of_domain": self.ood,
+            "out_of_domain_reasons": self.ood_reasons,
+            "accept_notes": self.accept_notes,
             "known_finding_hits": self.known_hits,
             "tlc_runs": self.tlc_runs,
             "actions_never_taken": sorted(set(self.actions_never_taken)),
